@@ -391,9 +391,10 @@ def c12_jobs(tier):
             if op in ('assign_range', 'assign_il', 'assign_op_il'):
                 if cap > 2: continue
                 m = 2
-            js.append(ops_job(op, 'int', n, cap, maxsz=m, witness=W))
+            Wc = W if m > 0 or op in ('insert_n', 'resize', 'resize_v', 'assign_n', 'reserve', 'insert_range', 'insert_il', 'append_range', 'append_il') else ['length_error exit']   # max_size() == 0: a single-element insertion can only throw
+            js.append(ops_job(op, 'int', n, cap, maxsz=m, witness=Wc))
             if tier != 'quick' or (op in ('insert_n', 'push_back_c', 'resize_v', 'append_range') and (n, cap) == (2, 4)):
-                js.append(ops_job(op, 'Tr', n, cap, maxsz=m, witness=W))
+                js.append(ops_job(op, 'Tr', n, cap, maxsz=m, witness=Wc))
     # requests anywhere in the range of size_type (all 2^8 / 2^64 counts beyond max_size): must throw before touching anything; catches wrap-around in size()+count
     for op in ['insert_n', 'resize', 'resize_v', 'assign_n', 'reserve']:
         for st in ['uint8_t', 'std::size_t'] + ([] if tier == 'quick' else ['uint16_t', 'uint32_t']):
